@@ -53,15 +53,18 @@ func genDagCase(t *rapid.T, cfg dagCfg) *DagCase {
 	retries := make([]int, n)
 	c.Outcomes = make([][]string, n)
 	for i := 0; i < n; i++ {
-		if rapid.IntRange(0, 99).Draw(t, "hasretry") < cfg.RetryPct {
+		if chance(t, "hasretry", cfg.RetryPct) {
 			retries[i] = rapid.IntRange(1, 2).Draw(t, "retries")
 		}
 		for a := 0; a <= retries[i]; a++ {
-			r := rapid.IntRange(0, 99).Draw(t, "outcome")
+			errPct := cfg.ErrPct
+			if a < retries[i] && errPct < 45 {
+				errPct = 45 // an attempt that can be retried fails often: fail-then-succeed sequences
+			}
 			switch {
-			case r < cfg.ErrPct:
+			case chance(t, "err", errPct):
 				c.Outcomes[i] = append(c.Outcomes[i], rapid.SampledFrom([]string{"err", "err", "err", "errc", "errd"}).Draw(t, "errkind"))
-			case r < cfg.ErrPct+cfg.SkipPct:
+			case chance(t, "skip", cfg.SkipPct):
 				c.Outcomes[i] = append(c.Outcomes[i], "skip")
 			default:
 				c.Outcomes[i] = append(c.Outcomes[i], "ok")
@@ -100,11 +103,11 @@ func genDagCase(t *rapid.T, cfg dagCfg) *DagCase {
 			tk := rapid.IntRange(0, n-1).Draw(t, "readdtask")
 			calls = append(calls[:pos], append([]Call{{Op: "add", T: tk}}, calls[pos:]...)...)
 		}
-		if rapid.IntRange(0, 99).Draw(t, "twoobj") < cfg.TwoObjPct {
+		if chance(t, "twoobj", cfg.TwoObjPct) {
 			c.TwoTaskObjs = true
 		}
 	}
-	if rapid.IntRange(0, 99).Draw(t, "dup") < cfg.DupPct {
+	if chance(t, "dup", cfg.DupPct) {
 		var depCalls []int
 		for k, cl := range calls {
 			if cl.Op == "dep" {
@@ -118,7 +121,7 @@ func genDagCase(t *rapid.T, cfg dagCfg) *DagCase {
 			calls = append(calls[:pos], append([]Call{dup}, calls[pos:]...)...)
 		}
 	}
-	if rapid.IntRange(0, 99).Draw(t, "cycle") < cfg.CyclePct {
+	if chance(t, "cycle", cfg.CyclePct) {
 		a := rapid.IntRange(0, n-1).Draw(t, "cyca")
 		b := rapid.IntRange(0, n-1).Draw(t, "cycb")
 		// edge a -> b closes a cycle when b already (transitively) depends on a, or a == b
@@ -137,9 +140,9 @@ func genDagCase(t *rapid.T, cfg dagCfg) *DagCase {
 			for _, d := range cl.Deps {
 				all = all && known[d]
 			}
-			if all && rapid.IntRange(0, 3).Draw(t, "lookup") == 0 {
+			if all && chance(t, "lookup", 25) {
 				cl.Op = "depl"
-			} else if cfg.ReAdd > 0 && rapid.IntRange(0, 39).Draw(t, "badlookup") == 0 {
+			} else if cfg.ReAdd > 0 && chance(t, "badlookup", 2) {
 				cl.Op = "depl" // may look up a task that is not known yet: a definition error
 			}
 			known[cl.T] = true
@@ -156,16 +159,33 @@ func genDagCase(t *rapid.T, cfg dagCfg) *DagCase {
 	c.Choices = rapid.SliceOfN(rapid.IntRange(0, 11), total+2, total+2).Draw(t, "choices")
 	c.Settle = make([]bool, len(c.Choices))
 	for i := range c.Settle {
-		c.Settle[i] = rapid.IntRange(0, 19).Draw(t, "settle") == 0
+		c.Settle[i] = chance(t, "settle", 5)
 	}
-	if rapid.IntRange(0, 99).Draw(t, "cancel") < cfg.CancelPct {
+	if chance(t, "cancel", cfg.CancelPct) {
 		c.CancelAfter = rapid.IntRange(0, total).Draw(t, "cancelafter")
 	}
-	c.Buffered = rapid.IntRange(0, 99).Draw(t, "buffered") < cfg.Buffered
-	if c.Buffered && rapid.IntRange(0, 5).Draw(t, "sinkfails") == 0 {
+	c.Buffered = chance(t, "buffered", cfg.Buffered)
+	if c.Buffered && chance(t, "sinkfails", 15) {
 		c.SinkFails = true
 	}
 	return c
+}
+
+// chance draws an event with (approximately) the given probability in percent. rapid's integer generators
+// are biased towards small values, so percentages are built from fair coin flips; the event needs high
+// bits, hence shrinking (towards false) removes it.
+func chance(t *rapid.T, label string, pct int) bool {
+	if pct <= 0 {
+		return false
+	}
+	v := 0
+	for i := 0; i < 7; i++ {
+		v <<= 1
+		if rapid.Bool().Draw(t, label) {
+			v |= 1
+		}
+	}
+	return v >= 128-(pct*128+50)/100
 }
 
 func seq(n int) []int {
@@ -329,7 +349,7 @@ var propC15 = &dprop{ID: "C15", Sub: "bound", Tag: "C15",
 var propC16 = &dprop{ID: "C16", Sub: "histories", Tag: "C16",
 	Rule: "same controlled scheduler over graph-CONSTRUCTION histories: shuffled AddTask/TaskDependsOn/TaskRetries scripts with up to 3 re-adds of already known tasks at any position (same or second Task object), duplicate edges (12%), planted self edges / back edges (12%); termination within a bounded wait once everything was released, work conservation (the driver waits until exactly min(capacity, running+ready) task functions are in flight, a ready task never started shows as a stall), cycle rejection before any task starts (ErrorGraphHasCycle when the definition is otherwise error-free), DepthFirstSort validity; non-trivial = script repeats a call / plants a cycle, or a quiescent point with spare capacity was reached; distinct by (script, mode, history)",
 	Gen: func(t *rapid.T) *DagCase {
-		return genDagCase(t, dagCfg{MaxN: 7, Density: []int{20, 40, 70}, ErrPct: 4, SkipPct: 3, RetryPct: 15, Modes: allModes, CancelPct: 8, ReAdd: 3, DupPct: 12, CyclePct: 12, TwoObjPct: 30})
+		return genDagCase(t, dagCfg{MaxN: 7, Density: []int{20, 40, 70}, ErrPct: 4, SkipPct: 3, RetryPct: 15, Modes: allModes, CancelPct: 8, ReAdd: 3, DupPct: 8, CyclePct: 10, TwoObjPct: 30})
 	},
 	NT: func(c *DagCase, r *Result) bool {
 		seen := map[string]bool{}
